@@ -1,4 +1,4 @@
 """Rule modules; importing ALL registers every rule."""
-from . import alloc, buffers, guards, kernel, deps, hybrid, misc, layout, ctemplate, specialise, allocmodel, hyeval, objhist, bufeval, refhist, effects, allochist, storagealias  # noqa: F401
+from . import alloc, buffers, guards, kernel, deps, hybrid, misc, layout, ctemplate, specialise, allocmodel, hyeval, objhist, bufeval, refhist, effects, allochist, storagealias, ownership  # noqa: F401
 
 ALL = True
